@@ -12,13 +12,16 @@ Proof. exact emitted_packets_bounded. Qed.
 Print Assumptions C08_packets_bounded.
 
 (* Credit conservation in every reachable state of every honest schedule: the sender's window
-   plus the data bytes in flight plus the adjustments in flight equals the receiver's window
-   minus what it has buffered; the sender's window is never negative. *)
+   plus the data bytes in flight plus the adjustments in flight never exceeds the receiver's window
+   minus what it has buffered (with equality until the receiver has seen CLOSE, after which it no
+   longer sends adjustments); the sender's window is never negative. *)
 Theorem C08_sender_within_window : forall strict window pktsize ops,
   1 <= window -> 1 <= pktsize -> Forall honest ops ->
   let y := run strict window pktsize ops in
   0 <= s_win (snd_ y) /\
-  s_win (snd_ y) + pkts_len (fwd y) + pkts_adj (back y) = r_win (rcv_ y) - buf_len (r_buf (rcv_ y)).
+  s_win (snd_ y) + pkts_len (fwd y) + pkts_adj (back y) <= r_win (rcv_ y) - buf_len (r_buf (rcv_ y)) /\
+  (stage_r (r_state (rcv_ y)) <> 2%nat ->
+   s_win (snd_ y) + pkts_len (fwd y) + pkts_adj (back y) = r_win (rcv_ y) - buf_len (r_buf (rcv_ y))).
 Proof. exact sender_within_window. Qed.
 Print Assumptions C08_sender_within_window.
 
